@@ -606,21 +606,21 @@ func (bridge *ExprBridge) convertLikeToFunction(field, pattern string) string {
 		// %pattern% -> contains操作符（但不是单独的%）
 		inner := strings.Trim(pattern, "%")
 		if inner == "" {
-			// %% 表示匹配任何字符串
-			return "true"
+			// %% 表示匹配任何字符串 (any string - but not NULL: NULL LIKE '%' is not true)
+			return fmt.Sprintf("%s != nil", field)
 		}
 		return fmt.Sprintf("%s contains '%s'", field, inner)
 	} else if strings.HasPrefix(pattern, "%") && len(pattern) > 1 {
-		// %pattern -> endsWith操作符
-		suffix := strings.TrimPrefix(pattern, "%")
+		// %pattern -> endsWith操作符 (a run of leading % is one wildcard)
+		suffix := strings.TrimLeft(pattern, "%")
 		return fmt.Sprintf("%s endsWith '%s'", field, suffix)
 	} else if strings.HasSuffix(pattern, "%") && len(pattern) > 1 {
-		// pattern% -> startsWith操作符
-		prefix := strings.TrimSuffix(pattern, "%")
+		// pattern% -> startsWith操作符 (a run of trailing % is one wildcard)
+		prefix := strings.TrimRight(pattern, "%")
 		return fmt.Sprintf("%s startsWith '%s'", field, prefix)
 	} else if pattern == "%" {
-		// 单独的%匹配任何字符串
-		return "true"
+		// 单独的%匹配任何字符串 (any string - but not NULL)
+		return fmt.Sprintf("%s != nil", field)
 	} else if strings.Contains(pattern, "%") || strings.Contains(pattern, "_") {
 		// 复杂模式（如prefix%suffix）或包含单字符通配符，使用自定义的like_match函数
 		return fmt.Sprintf("like_match(%s, '%s')", field, pattern)
@@ -637,12 +637,13 @@ func (bridge *ExprBridge) matchesLikePattern(text, pattern string) bool {
 	ti, pi := 0, 0
 	starIdx, matchIdx := -1, 0
 	for ti < len(text) {
-		if pi < len(pattern) && (pattern[pi] == '_' || pattern[pi] == text[ti]) {
-			ti++
-			pi++
-		} else if pi < len(pattern) && pattern[pi] == '%' {
+		if pi < len(pattern) && pattern[pi] == '%' {
+			// wildcard first: a literal '%' in the text must not be taken for it
 			starIdx = pi
 			matchIdx = ti
+			pi++
+		} else if pi < len(pattern) && (pattern[pi] == '_' || pattern[pi] == text[ti]) {
+			ti++
 			pi++
 		} else if starIdx != -1 {
 			pi = starIdx + 1
